@@ -308,7 +308,7 @@ template <class T> static bool part_ws(T x)
     return m >= lo && m <= hi;
 }
 
-static long long g_disagree = 0;
+static long long g_disagree = 0, g_libnan = 0, g_second_opinions = 0;
 
 template <class T>
 static void make_oracle(Oracle<T>& o, T a, T b, T c, T d)
@@ -362,13 +362,25 @@ static void make_oracle(Oracle<T>& o, T a, T b, T c, T d)
         o.op[0].rule = o.op[1].rule = "finite operands never yield a NaN";
     }
     // second opinion on the rule table: libstdc++ / libgcc implement Annex G for std::complex
-    for (int k = 2; k < 4; ++k)
+    // (consulted only when every finite operand part is zero or well-scaled: with huge finite parts libgcc's own
+    //  recovery code overflows - e.g. float (MAX,MAX)/(inf,inf) = (NaN,0) - and is no authority; the rule table does
+    //  not depend on the magnitude of finite parts, so every pattern of special parts is still cross-checked)
+    const bool consult = (!is_fin(a) || part_ws(a)) && (!is_fin(b) || part_ws(b)) && (!is_fin(c) || part_ws(c)) && (!is_fin(d) || part_ws(d));
+    for (int k = 2; k < 4 && consult; ++k)
     {
         if (o.op[k].expect == E_NONE) continue;
+        ++g_second_opinions;
         std::complex<T> r = k == 2 ? std::complex<T>(a, b) * std::complex<T>(c, d) : std::complex<T>(a, b) / std::complex<T>(c, d);
         int rc = zclass(r.real(), r.imag());
         bool agree = o.op[k].expect == E_INF ? rc == Z_INF : o.op[k].expect == E_ZERO ? rc == Z_ZERO : rc != Z_NAN;
-        if (!agree)
+        if (!agree && o.op[k].expect == E_NOTNAN)
+        {
+            // libgcc's __divdc3 returns NaN+iNaN for some finite quotients that overflow; informational only
+            if (g_libnan++ == 0)
+                vf::note(std::string("libstdc++ std::complex<") + cfg<T>::name() + "> itself yields a NaN from finite operands (not an error of xtl, not judged): " + fmtc(a, b) + " " +
+                         op_chars[k] + " " + fmtc(c, d) + " = " + fmtc(r.real(), r.imag()));
+        }
+        else if (!agree)
         {
             if (g_disagree++ < 5)
                 vf::note(std::string("ORACLE-DISAGREEMENT ") + cfg<T>::name() + ": rule '" + o.op[k].rule + "' vs libstdc++ std::complex: " + fmtc(a, b) + " " +
@@ -411,9 +423,9 @@ static std::string describe(const Variant<T>& v, const IO<T>& io)
 template <class T>
 static void check_after(const Variant<T>& v, const IO<T>& io)
 {
-    const std::string inst = "C10/" + v.name + "<" + cfg<T>::name() + ">/operands-after/";
+    auto inst = [&]() { return "C10/" + v.name + "<" + cfg<T>::name() + ">/operands-after/"; };
     if (io.flags & c10::F_RETREF)
-        report(v, io, inst + "return-is-not-self", describe(v, io) + ": the compound operator did not return a reference to its left operand");
+        report(v, io, inst() + "return-is-not-self", describe(v, io) + ": the compound operator did not return a reference to its left operand");
     bool lhs_written = v.compound || v.cls == C_ASG || v.cls == C_ASGS;
     for (int i = 0; i < 4; ++i)
     {
@@ -423,12 +435,12 @@ static void check_after(const Variant<T>& v, const IO<T>& io)
             // the stored referent must hold the result for a reference closure, and be untouched for a value closure
             T want = v.k1 == c10::KR ? io.out[i] : io.in[i];
             if (!same_mod_nan(io.stor[i], want))
-                report(v, io, inst + (v.k1 == c10::KR ? "referent-not-updated" : "storage-of-value-closure-written"),
+                report(v, io, inst() + (v.k1 == c10::KR ? "referent-not-updated" : "storage-of-value-closure-written"),
                        describe(v, io) + ": storage of the left operand's " + (i ? "imaginary" : "real") + " part holds " + fmt(io.stor[i]) + ", expected " + fmt(want));
             continue;
         }
         if (!same_mod_nan(io.post[i], io.in[i]) || !same_mod_nan(io.stor[i], io.in[i]))
-            report(v, io, inst + "operand-modified",
+            report(v, io, inst() + "operand-modified",
                    describe(v, io) + ": " + (lhs ? "left" : "right") + " operand's " + ((i & 1) ? "imaginary" : "real") + " part reads " + fmt(io.post[i]) + " (storage " +
                        fmt(io.stor[i]) + ") after the operation, was " + fmt(io.in[i]));
     }
@@ -440,17 +452,22 @@ static bool judge_arith(const Variant<T>& v, const IO<T>& io, const Oracle<T>& o
 {
     const PerOp& r = o.op[v.op];
     bool judged = false;
-    const std::string fam = std::string("C10/") + op_names[v.op] + (v.eff ? ".ieee<" : ".naive<") + cfg<T>::name() + ">/" + form_name(v.form) + "/" +
-                            zclass_name(o.p[0], o.p[1]) + op_chars[v.op] + zclass_name(o.q[0], o.q[1]) + "/";
-    const std::string what = describe(v, io) + " [effective operands " + fmtc(o.p[0], o.p[1]) + " " + op_chars[v.op] + " " + fmtc(o.q[0], o.q[1]) +
-                             ", ieee_compliant=" + (v.eff ? "true" : "false") + "]";
+    // strings are only built when something is wrong
+    auto fam = [&]() {
+        return std::string("C10/") + op_names[v.op] + (v.eff ? ".ieee<" : ".naive<") + cfg<T>::name() + ">/" + form_name(v.form) + "/" +
+               zclass_name(o.p[0], o.p[1]) + op_chars[v.op] + zclass_name(o.q[0], o.q[1]) + "/";
+    };
+    auto what = [&]() {
+        return describe(v, io) + " [effective operands " + fmtc(o.p[0], o.p[1]) + " " + op_chars[v.op] + " " + fmtc(o.q[0], o.q[1]) +
+               ", ieee_compliant=" + (v.eff ? "true" : "false") + "]";
+    };
     if (r.tol_any || (v.eff && r.tol_ieee))
     {
         judged = true;
         ++g_tol_checks;
         const T eps = std::numeric_limits<T>::epsilon();
         if (!is_fin(io.out[0]) || !is_fin(io.out[1]))
-            report(v, io, fam + "nonfinite-result", what + ": exact result is (" + fmt(T(r.er)) + ", " + fmt(T(r.ei)) + ")");
+            report(v, io, fam() + "nonfinite-result", what() + ": exact result is (" + fmt(T(r.er)) + ", " + fmt(T(r.ei)) + ")");
         else
         {
             q128 dr = q128(io.out[0]) - r.er, di = q128(io.out[1]) - r.ei;
@@ -459,7 +476,7 @@ static bool judge_arith(const Variant<T>& v, const IO<T>& io, const Oracle<T>& o
             if (!bad && v.op < 2)   // + and - are componentwise: each part within 4 eps of its exact value
                 bad = q_abs(dr) > q128(4) * q128(eps) * q_abs(r.er) || q_abs(di) > q128(4) * q128(eps) * q_abs(r.ei);
             if (bad)
-                report(v, io, fam + "inexact", what + ": exact result is (" + fmt(T(r.er)) + ", " + fmt(T(r.ei)) + "), error exceeds 8 eps |z| (4 eps per part for + and -)");
+                report(v, io, fam() + "inexact", what() + ": exact result is (" + fmt(T(r.er)) + ", " + fmt(T(r.ei)) + "), error exceeds 8 eps |z| (4 eps per part for + and -)");
         }
     }
     if (v.eff && r.expect != E_NONE)
@@ -468,11 +485,11 @@ static bool judge_arith(const Variant<T>& v, const IO<T>& io, const Oracle<T>& o
         ++g_rule_checks;
         int rc = zclass(io.out[0], io.out[1]);
         if (r.expect == E_INF && rc != Z_INF)
-            report(v, io, fam + "expected-infinity", what + ": result is " + zname(rc) + "; Annex G: " + r.rule);
+            report(v, io, fam() + "expected-infinity", what() + ": result is " + zname(rc) + "; Annex G: " + r.rule);
         else if (r.expect == E_ZERO && rc != Z_ZERO)
-            report(v, io, fam + "expected-zero", what + ": result is " + zname(rc) + "; Annex G: " + r.rule);
+            report(v, io, fam() + "expected-zero", what() + ": result is " + zname(rc) + "; Annex G: " + r.rule);
         else if (r.expect == E_NOTNAN && rc == Z_NAN)
-            report(v, io, fam + "nan-from-finite", what + ": result is a NaN; Annex G: " + r.rule);
+            report(v, io, fam() + "nan-from-finite", what() + ": result is a NaN; Annex G: " + r.rule);
     }
     return judged;
 }
@@ -530,10 +547,11 @@ struct PairRunner
                 }
                 judged = judge_arith<T>(v, io, o);
                 nontrivial = o.pc != Z_ZERO && o.qc != Z_ZERO;
-                if (judged && v.eff && o.op[v.op].expect != E_NONE && (o.pc >= Z_INF || o.qc >= Z_INF) && samples_ieee++ % 997 == 0)
-                    vf::sample(describe(v, io) + " [Annex G: " + o.op[v.op].rule + "]", 4);
-                else if (judged && nontrivial && (o.op[v.op].tol_any || o.op[v.op].tol_ieee) && samples_tol++ % 100003 == 77)
-                    vf::sample(describe(v, io) + " [exact " + fmtc(T(o.op[v.op].er), T(o.op[v.op].ei)) + "]", 4);
+                // two written-out cases per process: one Annex G case with a special operand, one inexact finite case
+                if (judged && v.eff && o.op[v.op].expect != E_NONE && (o.pc >= Z_INF || o.qc >= Z_INF) && nontrivial && samples_ieee++ == 4321)
+                    vf::sample(describe(v, io) + " [Annex G: " + o.op[v.op].rule + "]", 2);
+                else if (judged && nontrivial && (o.op[v.op].tol_any || (v.eff && o.op[v.op].tol_ieee)) && !same_bits<T>(T(o.op[v.op].er), io.out[0]) && samples_tol++ == 1234)
+                    vf::sample(describe(v, io) + " [exact " + fmtc(T(o.op[v.op].er), T(o.op[v.op].ei)) + ", within 8 eps]", 2);
                 break;
             }
             case C_ASG:
@@ -557,6 +575,8 @@ struct PairRunner
                 nontrivial = er || ei || anynan;
                 bool expect = (er && ei) == (v.cls == C_EQ);
                 bool got = io.out[0] != T(0);
+                if (nontrivial && er != ei && samples_ieee++ == 20000)
+                    vf::sample(v.name + "<" + cfg<T>::name() + ">: " + fmtc(a, b) + (v.cls == C_EQ ? " == " : " != ") + fmtc(c, d) + " -> " + (got ? "true" : "false"), 2);
                 if (got != expect)
                 {
                     const char* icls = anynan ? "nan-part" : (er && ei) ? "equal" : er ? "imag-differs" : ei ? "real-differs" : "both-differ";
@@ -576,6 +596,8 @@ struct PairRunner
                 rf.out[0] = rf.out[1] = T(0);
                 rf.flags = 0;
                 v.ref(rf);
+                if (nontrivial && v.k1 != c10::KV && samples_tol++ == 5000)
+                    vf::sample(describe(v, io) + " [std::complex gives " + fmtc(rf.out[0], rf.out[1]) + "]", 2);
                 if (!same_mod_nan(io.out[0], rf.out[0]) || !same_mod_nan(io.out[1], rf.out[1]))
                     report(v, io, std::string("C10/") + v.fname + "<" + cfg<T>::name() + ">/" + v.name + "/differs-from-std-complex",
                            describe(v, io) + ": std::complex gives " + fmtc(rf.out[0], rf.out[1]));
@@ -642,7 +664,9 @@ static std::vector<T> alphabet(bool thorough)
         const T sq_lo = std::ldexp(T(1), (L::min_exponent - L::digits) / 2 - 1);          // squares underflow to zero from here
         T q[] = {T(0), -T(0), T(1), T(-1), T(0.5), T(-0.5), T(2), T(-2), T(3), T(-7),
                  L::min(), -L::min(), L::denorm_min(), -L::denorm_min(), big, -big, small, -small, L::max(), -L::max(), inf, -inf, nan,
-                 third, -onep, T(0.1), T(-3.14159265358979323846), T(12345.678), wlim, -wlo, T(2) * wlim, sq_hi, -sq_lo};
+                 third, -onep, T(0.1), T(-3.14159265358979323846), T(12345.678), wlim, -wlo, T(2) * wlim, sq_hi, -sq_lo,
+                 -third, T(1) - L::epsilon() / 2, T(1.41421356237309504880), T(-0.75), T(1e-3), std::ldexp(T(1), int(cfg<T>::W) / 2), -std::ldexp(T(1), -int(cfg<T>::W) / 2),
+                 L::max() / 2, -L::max() / 4, T(4) * L::min(), -T(3) * L::denorm_min(), std::ldexp(T(1.5), L::max_exponent - 2)};
         v.assign(q, q + sizeof q / sizeof q[0]);
     }
     return v;
@@ -692,9 +716,9 @@ static int run_all(int argc, char** argv)
         bool stopped = false;
         for (int ia = 0; ia < n && !stopped; ++ia)
         {
-            if (ia % nshard != shard) continue;
             for (int ib = 0; ib < n && !stopped; ++ib)
             {
+                if ((ia * n + ib) % nshard != shard) continue;
                 if (deadline && (long long)std::time(nullptr) > deadline)
                 {
                     vf::cap(std::string("deadline: ") + cfg<T>::name() + "/" + part_name + " shard " + vf::str(shard) + "/" + vf::str(nshard) + " stopped before a-index " +
@@ -721,6 +745,8 @@ static int run_all(int argc, char** argv)
     vf::stat("closure_identity_checks", g_vs_value);
     vf::stat("std_complex_identity_checks", g_vs_std);
     vf::stat("oracle_disagreements", g_disagree);
+    vf::stat("rule_table_second_opinions", g_second_opinions);
+    vf::stat("libstdcxx_nan_from_finite_cases", g_libnan);
     vf::done();
     return 0;
 }
